@@ -13,23 +13,13 @@ RA = FSMOD + 'raftapply::'
 FS = '<rnacos::raft::filestore::core::FileStore as async_raft_ext::RaftStorage<rnacos::raft::store::ClientRequest, rnacos::raft::store::ClientResponse>>::'
 
 # who may mutate files of the raft store (who-may-call table; confirmed by reading)
-WRITER_OWNERS = {
-    LIM + 'init': 'creates/extends the log file (header, set_len)',
-    LIM + 'write': 'appends record + index entry',
-    LIM + 'strip_log_to': 'truncation',
-    LIM + 'flush_log': 'flush only',
-    RI + 'RaftIndexInnerManager::init': 'initial catalogue image',
-    RI + 'RaftIndexInnerManager::write_last_applied_log': '8 byte header',
-    RI + 'RaftIndexInnerManager::write_index': 'catalogue record',
-    RI + 'RaftIndexInnerManager::flush': 'flush only',
-    RI + 'RaftIndexManager::try_lock': 'db_lock file',
-    RS + 'SnapshotWriter::init': 'snapshot header',
-    RS + 'SnapshotWriter::write': 'snapshot bytes',
-    RS + 'SnapshotWriter::write_record': 'snapshot record',
-    RS + 'SnapshotWriter::flush': 'flush only',
-    RS + 'RaftSnapshotManager::complete_snapshot': 'removes superseded snapshot files',
-    RL + 'RaftLogManager::split_off': 'removes compacted log files',
-    FS + 'create_snapshot': 'opens the install file handed to async-raft',
+# who may mutate files of the raft store: impl type -> kinds of mutation it may perform (who-may-call table; confirmed by reading)
+WRITER_TYPES = {
+    'rnacos::raft::filestore::raftlog::LogInnerManager': ({'write_all', 'set_len'}, 'the log file: header, records, index entries, truncation'),
+    'rnacos::raft::filestore::raftindex::RaftIndexInnerManager': ({'write_all'}, 'the catalogue file'),
+    'rnacos::raft::filestore::raftsnapshot::SnapshotWriter': ({'write_all'}, 'snapshot files'),
+    'rnacos::raft::filestore::raftsnapshot::RaftSnapshotManager': ({'remove_file'}, 'removes superseded snapshot files'),
+    'rnacos::raft::filestore::raftlog::RaftLogManager': ({'remove_file'}, 'removes compacted log files'),
 }
 MUTATORS = r'(AsyncWriteExt::(write_all|write|write_buf|write_all_buf)$|tokio::fs::File::set_len$|std::fs::remove_file$|tokio::fs::remove_file|' \
            r'std::fs::rename$|tokio::fs::rename|std::fs::write$|tokio::fs::write$|std::io::Write::write_all$|std::fs::File::set_len$)'
@@ -68,11 +58,17 @@ def r04a(ck, fb):
     for s in iw:
         ck.require(cfg.dominates_blocks(w, {x.bb for x in dw}, s.bb), 'R04a', 'write:data-before-index', s.where(),
                    'the index entry can be written before (or without) the data record it points behind')
-        sk = util.sites_on_field(w, r'AsyncSeekExt::seek$', 'index_file')
-        t = Taint(w, place_src=field_place_src('index_cursor'))
-        ck.require(any(cfg.dominates_blocks(w, {x.bb}, s.bb) and t.op_tainted(x.args[1]) for x in sk), 'R04a', 'write:index-seek', s.where(),
-                   'index entry is not written at index_cursor')
         ck.require(util.awaited(w, s), 'R04a', 'write:index-awaited', s.where(), 'index write future is not awaited')
+    # the index entry is written at index_cursor: in the body that really holds the index write, a seek(index_cursor) dominates it
+    okseek = False
+    for b2 in util.region(fb, w):
+        real = util.sites_on_field(b2, r'AsyncWriteExt::write_all$', 'index_file')
+        for s in real:
+            sk = util.sites_on_field(b2, r'AsyncSeekExt::seek$', 'index_file')
+            t = Taint(b2, place_src=field_place_src('index_cursor'))
+            okseek = any(cfg.dominates_blocks(b2, {x.bb}, s.bb) and t.op_tainted(x.args[1]) for x in sk)
+            ck.require(okseek, 'R04a', 'write:index-seek', s.where(), 'index entry is not written at index_cursor')
+            ck.require(util.awaited(b2, s), 'R04a', 'write:index-write-awaited', s.where(), 'index write future is not awaited')
     for s in dw:
         ck.require(util.awaited(w, s), 'R04a', 'write:data-awaited', s.where(), 'data write future is not awaited')
     f = ck.main(LIM + 'flush_log', 'R04a')
@@ -187,18 +183,17 @@ def r04d(ck, fb):
         sites = b.calls(MUTATORS)
         if not sites:
             continue
-        root = fb.root_of(b.name)
-        seen.setdefault(root, []).extend(sites)
-    for root, sites in sorted(seen.items()):
+        root = fb.bodies[fb.root_of(b.name)]
+        seen.setdefault(root.name, (root, []))[1].extend(sites)
+    for name, (root, sites) in sorted(seen.items()):
         ck.analysed(root)
-        ck.require(root in WRITER_OWNERS, 'R04d', 'writer:%s' % root, sites[0].where(),
-                   '%s mutates a raft store file (%s) but is not in the owner table: a second writer of the same file family '
-                   'breaks the ordering argument of R04a-c' % (root, sites[0].callee.split('::')[-1]),
-                   WRITER_OWNERS.get(root, ''))
-    ck.floor('R04d', 'file-mutating functions found', len(seen), 10)
-    for o in WRITER_OWNERS:
-        if o not in seen and not fb.has(o):
-            ck.bad('R04d', 'anchor:' + o, '-', 'owner %s no longer exists' % o)
+        ty = root.self_ty
+        kinds = set(s.callee.split('::')[-1] for s in sites)
+        allowed = WRITER_TYPES.get(ty)
+        ck.require(allowed is not None and kinds <= allowed[0], 'R04d', 'writer:%s' % name, sites[0].where(),
+                   '%s (impl of %s) mutates a raft store file (%s) but that type is not a registered writer of this kind: a second writer of the same '
+                   'file family breaks the ordering argument of R04a-c' % (name, ty, sorted(kinds)), allowed[1] if allowed else '')
+    ck.floor('R04d', 'file-mutating functions found', len(seen), 9)
 
 
 def r04e(ck, fb):
@@ -209,37 +204,34 @@ def r04e(ck, fb):
         return
     rm = b.calls(r'std::fs::remove_file$')
     ck.floor('R04e', 'remove_file in complete_snapshot', len(rm), 1)
-    # the removal loop iterates a range slice of self.snapshots whose end is tainted by len()-1
-    idx = b.calls(r'Index<std::ops::Range<usize>>>::index$|as std::ops::Index<std::ops::Range')
+    # the removal loop runs over the first len()-1 catalogued snapshots: its iterator (slice range or .take(n)) depends on a value
+    # computed as len() - 1, under len() > 1
+    tl = Taint(b, call_src=lambda t: (t.get('f') or {}).get('d', '') == 'std::vec::Vec::<T, A>::len')
+    subs = [st for (i, j, st) in b.stmts() if st.get('rv', {}).get('k') == 'bin' and st['rv']['op'] in ('SubWithOverflow', 'Sub')
+            and str((st['rv']['b'].get('c') or {}).get('v')) == '1' and tl.op_tainted(st['rv']['a']) and isinstance(st['d'], int)]
     good = False
-    for s in idx:
-        if util.recv_fields(b, s)[-1:] != ['snapshots']:
-            continue
-        a = util.agg_of(b, s.args[1])
-        if not a:
-            continue
-        end = a['ops'][a['fields'].index('end')]
-        # end = len - 1 under len > 1
-        d = cfg.describe_operand(b, end)
-        t = Taint(b, call_src=lambda t: (t.get('f') or {}).get('d', '') == 'std::vec::Vec::<T, A>::len')
-        if t.op_tainted(end):
-            # find the subtraction by const 1 feeding it
-            subs = [st for (i, j, st) in b.stmts() if st.get('rv', {}).get('k') == 'bin' and st['rv']['op'] in ('SubWithOverflow', 'Sub')
-                    and str((st['rv']['b'].get('c') or {}).get('v')) == '1' and t.op_tainted(st['rv']['a'])]
-            if subs:
+    if subs:
+        tk = Taint(b, local_src=[st['d'] for st in subs])
+        for r in rm:
+            nxs = [x for x in b.calls(r'Iterator>::next$') if cfg.dominates_blocks(b, {x.bb}, r.bb)]
+            if any(tk.op_tainted(x.args[0]) for x in nxs):
                 good = True
     ck.require(good, 'R04e', 'complete_snapshot:keeps-last', b.where(),
-               'the removal range over self.snapshots is not [0, len-1): the most recent catalogued snapshot could be deleted before '
+               'the removal loop over self.snapshots is not bounded by len()-1: the most recent catalogued snapshot could be deleted before '
                'its successor is catalogued')
     sv = b.calls(r'RaftSnapshotManager::save_snapshot_to_index$')
     rets = b.return_blocks()
-    ck.require(bool(sv) and all(not (set(rets) & cfg.reach_from(b, [0], blocked_blocks={s.bb for s in sv}))
-                                for _ in [0]), 'R04e', 'complete_snapshot:saves-catalogue', b.where(),
+    ck.require(bool(sv) and not (set(rets) & cfg.reach_from(b, [0], blocked_blocks={s.bb for s in sv})), 'R04e', 'complete_snapshot:saves-catalogue', b.where(),
                'complete_snapshot can return without saving the snapshot catalogue')
-    # the new catalogue contains the last old range and the new range
-    pushes = util.mut_calls_on_field(b, 'snapshots', r'Vec::<T, A>::push$') + b.calls(r'Vec::<T, A>::push$')
-    ck.require(len(b.calls(r'Vec::<T, A>::push$')) >= 3, 'R04e', 'complete_snapshot:new-catalogue', b.where(),
-               'the new catalogue no longer carries both the previous and the new snapshot')
+    # the new catalogue carries the previous last range and the new range
+    tn = Taint(b, local_src=[3], mut_args=True)
+    tlast = Taint(b, call_src=lambda t: (t.get('f') or {}).get('d', '').endswith('::last'), mut_args=True)
+    wr = [(bb, st) for (o, f, bb, st) in b.field_writes() if f == 'snapshots']
+    pushed = [x for x in util.mut_calls_on_field(b, 'snapshots', r'Vec::<T, A>::push$')]
+    okn = any(tn.op_tainted(o) for (bb, st) in wr for o in __import__('rn.facts', fromlist=['rv_operands']).rv_operands(st['rv'])) or any(tn.op_tainted(x.args[1]) for x in pushed)
+    okl = any(tlast.op_tainted(o) for (bb, st) in wr for o in __import__('rn.facts', fromlist=['rv_operands']).rv_operands(st['rv']))
+    ck.require(okn and okl, 'R04e', 'complete_snapshot:new-catalogue', b.where(),
+               'the new catalogue no longer carries both the previous last snapshot and the new one')
     s = ck.body(RS + 'RaftSnapshotManager::save_snapshot_to_index', 'R04e')
     if s:
         ck.require(len(util.sends(s, r'RaftIndexRequest$', 'SaveSnapshots')) == 1, 'R04e', 'save_snapshot_to_index:SaveSnapshots', s.where(),
